@@ -100,6 +100,8 @@ func main() {
 		c10Main(os.Args[2:])
 	case "c10-replay":
 		c10ReplayMain(os.Args[2:])
+	case "c10-confirm":
+		c10ConfirmMain(os.Args[2:])
 	case "c10-digest":
 		c10DigestMain(os.Args[2:])
 	case "c11":
